@@ -66,13 +66,15 @@ def _replay(job, phase):
         phase[0] = 'solve:' + iface
         rec = dict(iface=iface)
         try:
+            # display / log settings must not change what is solved (stdout goes to /dev/null in the workers)
+            kw = dict(display=(job.get('variant', 0) == 3), log=(job.get('variant', 0) == 2))
             if iface == 'def':
-                m.solve(display=False)
+                m.solve(**kw)
             elif iface == 'grb':
                 # Gurobi does not return on some unbounded mixed-integer cone programs: bound its run time
-                m.solve(importlib.import_module('rsome.grb_solver'), display=False, params={'TimeLimit': 10})
+                m.solve(importlib.import_module('rsome.grb_solver'), params={'TimeLimit': 10}, **kw)
             else:
-                m.solve(importlib.import_module('rsome.%s_solver' % iface), display=False)
+                m.solve(importlib.import_module('rsome.%s_solver' % iface), **kw)
         except Exception as e:
             rec.update(status='raised', exc='%s: %s' % (type(e).__name__, e))
             out['runs'].append(rec)
